@@ -113,14 +113,28 @@ async def fault_case(ctx, case: dict) -> None:
                 for k in left:
                     del parked[k]  # report once
 
+    async def reenter() -> None:
+        """The application reconnects: leaves and re-enters the gateway context on the same Gateway object."""
+        await stepper.close()
+        saved, transport.fail_attempts = transport.fail_attempts, set()
+        await gateway.__aexit__(None, None, None)
+        await gateway.__aenter__()
+        transport.fail_attempts = saved
+        transport.take_writes()
+        ctx.obs("reentered-context")
+
     for s in case["sends"]:
         await do_send(s)
     transport.fail_attempts = set(case["faults"])
     resends = case.get("resends") or []
+    if case.get("reenter_after") == -1:
+        await reenter()
     for i, n in enumerate(case["wakes"]):
         await do_wake(n, final=False)
         if i < len(resends) and resends[i]:
             await do_send(resends[i])
+        if case.get("reenter_after") == i:
+            await reenter()
     transport.fail_attempts = set()
     for _ in range(2):
         for n in (A, B):
@@ -129,7 +143,8 @@ async def fault_case(ctx, case: dict) -> None:
     if parked:
         problem("command-lost", f"still parked after two fault-free wakes per node: {parked}")
     await stepper.close()
-    ctx.case((version, repr(case["sends"]), tuple(case["wakes"]), tuple(case["faults"]), repr(resends)),
+    ctx.case((version, repr(case["sends"]), tuple(case["wakes"]), tuple(case["faults"]), repr(resends),
+              case.get("reenter_after")),
              nontrivial=hit_faults > 0, sample=case)
     ctx.obs("faults-hit", hit_faults)
     ctx.obs("write-attempts", transport.attempts)
@@ -148,6 +163,10 @@ def cases(ctx):
                         continue
                     count += 1
                     yield {"version": version, "sends": sends, "wakes": wakes, "faults": list(faults)}
+                    if size <= 1 and len(wakes) >= 2:
+                        for reenter_after in (-1, 0):
+                            yield {"version": version, "sends": sends, "wakes": wakes, "faults": list(faults),
+                                   "reenter_after": reenter_after}
     ctx.exhaustive["fault-subsets-enumerated"] = count
     if not ctx.quick:
         resend_opts = [None, [A, 0, 2], [A, 1, 3], [B, 0, 2]]
@@ -161,7 +180,51 @@ def cases(ctx):
                                        "resends": [r for r in resends]}
 
 
+def concurrent_fault_cases(ctx) -> None:
+    """Failing flush writes COMBINED with send() calls racing the flush (Director, vf.sched): every order of
+    {complete write k, fail write k, start sender i} for bounded configurations."""
+    from ..sched import explore, run_schedule
+
+    k1, k2 = [A, 0, 2], [A, 0, 3]
+    configs = []
+    for version in ("2.0", "2.2"):
+        for parked in ([k1], [k1, k2]):
+            for senders in ([[[*k1, True]]], [[[*k2, True]]], [[[*k1, True]], [[*k1, True]]], [[[*k1, True]], [[*k2, True]]]):
+                for max_faults in (1, 2):
+                    configs.append({"version": version, "parked": parked, "senders": senders, "wakes": [A, A],
+                                    "max_faults": max_faults})
+    for config in configs:
+        if not ctx.mine():
+            continue
+        for _prefix, outcome in explore(config, lambda c, p: arun(run_schedule(c, p)), limit=ctx.pick(1500, 30000)):
+            case = {"kind": "schedule", "config": config, "choices": outcome.choices, "labels": outcome.labels}
+            ctx.case(("sched", repr(config), tuple(outcome.choices)), nontrivial=outcome.failed_writes > 0)
+            ctx.clause("concurrent-fault-schedule")
+            ctx.obs("faults-hit", outcome.failed_writes)
+            judge_schedule(ctx, case, outcome)
+
+
+def judge_schedule(ctx, case: dict, outcome) -> None:
+    for key, what in outcome.problems:
+        key = {"lost-update": "command-lost", "value-written-twice": "command-written-twice"}.get(key, key)
+        ctx.violation(key + "-under-concurrent-send", f"schedule {' '.join(outcome.labels)}: {what}", case)
+    if outcome.failed_writes and not [e for e in outcome.listener_errors if not e.get("final_wake")]:
+        ctx.violation("fault-not-reported", f"schedule {' '.join(outcome.labels)}: a flush write failed but no listen step "
+                                            f"reported it", case)
+    for err in outcome.listener_errors:
+        if not err["library"] or err["class"] not in ("TransportError", "TransportFailedError", "TransportReadError"):
+            ctx.violation("fault-wrong-error", f"schedule {' '.join(outcome.labels)}: listen raised {err['class']} "
+                                               f"({err.get('text')})", case)
+
+
 def run_case(ctx, case: dict) -> None:
+    if case.get("kind") == "schedule":
+        from ..sched import run_schedule
+
+        outcome = arun(run_schedule(case["config"], case["choices"]))
+        ctx.case(("sched", repr(case["config"]), tuple(case["choices"])))
+        judge_schedule(ctx, case, outcome)
+        return
     arun(fault_case(ctx, case))
 
 
@@ -169,6 +232,7 @@ def run(ctx) -> None:
     with Reach(ANCHORS) as reach:
         for case in cases(ctx):
             arun(fault_case(ctx, case))
+        concurrent_fault_cases(ctx)
     reach.into(ctx)
     for clause in ("fault-reported", "fault-free-wake-releases-all", "conservation-at-end"):
         ctx.require(clause, 100)
